@@ -665,7 +665,7 @@ pub fn run(ctx: &Ctx) -> i32 {
     });
     let ev = Evidence {
         level: "exploration",
-        rule: "One sim = one engine process fed 1-12 position commands (startpos or a FEN written by the rules model at a seeded point of a seeded game, with halfmove 0..150, fullmove 1..6000 and a seeded subset of the supported castling rights; move lists of 0..300 plies biased towards castling, en passant, promotions incl. capturing ones, rook captures on corners), interleaved with isready / ucinewgame / go depth 1, with CR, tab and blank-run variations; one command in four is related to an earlier one of the same process (the same text again, the same game a few plies further, the same game with moves taken back). After every position line the engine's board (64 squares, side, four rights, ep target, internal consistency) must equal the rules model's; other commands (isready, go, ...) must leave it alone; nothing is claimed between ucinewgame and the next position command; 5% of sessions are re-run through the real uci_loop and must give the same transcript; one sim in twelve is a short session read as a byte stream by the real input loop (one chunk or 1000 B-64 KiB reads) whose last position command is a game of up to ~4000 plies (a line of up to 20 KB), compared after the loop has returned at end of input. Evaluations = position commands compared; distinct by final position.".into(),
+        rule: "One sim = one engine process fed 1-12 position commands (startpos or a FEN written by the rules model at a seeded point of a seeded game, with halfmove 0..150, fullmove 1..6000 and a seeded subset of the supported castling rights; move lists of 0..300 plies biased towards castling, en passant, promotions incl. capturing ones, rook captures on corners), interleaved with isready / ucinewgame / go depth 1, with CR, tab and blank-run variations; one command in four is related to an earlier one of the same process (the same text again, the same game a few plies further, the same game with moves taken back). After every position line the engine's board (64 squares, side, four rights, ep target, internal consistency) must equal the rules model's; other commands (isready, go, ...) must leave it alone; nothing is claimed between ucinewgame and the next position command; 5% of sessions are re-run through the real uci_loop and must give the same transcript; one sim in twelve is a short session read as a byte stream by the real input loop (one chunk or 1000 B-64 KiB reads) whose last position command is a game of up to ~4000 plies (a line of up to 20 KB), compared after the loop has returned at end of input. Evaluations = position commands compared; distinct by final position. One command in ten is a look-alike pair within one session (a placement first without a castling right / ep square, one move played, then with it and the move that needs it); one in twelve starts from a constructed position in which a king captures an unmoved rook on its home corner while the opponent still holds that right.".into(),
         extra: serde_json::Map::new(),
         assumptions: vec![
             "the oracle is the independent rules model R (perft-validated), not the engine's generator".into(),
